@@ -416,7 +416,9 @@ def queue_kept(ctx, facts):
                 n += 1
                 allowed = {"client::pool::Pool::checkout": {"push_back"}, "client::pool::PoolInner::cancel_connection": {"retain", "retain_mut"}}
                 in_inner = g.nkey.startswith("client::pool::PoolInner::") and "{closure" not in g.nkey
-                ok = m in allowed.get(g.nkey, set()) or m in ("len", "is_empty", "iter") or (in_inner and m == "pop_front")
+                import panics
+                chain = panics.owner_chain(g)   # a private single-caller helper is judged as the function it was extracted from
+                ok = any(m in allowed.get(nm, set()) for nm in chain) or m in ("len", "is_empty", "iter") or (in_inner and m == "pop_front")
                 ctx.check(ok, "waiter-queue|%s|%s" % (g.nkey, m), "queue of senders: %s in %s" % (m, g.nkey.split("::")[-1]),
                           "queued senders are removed / reordered through %s in %s" % (m, g.nkey), c.where())
         # an owned queue that goes out of scope drops every sender in it
